@@ -688,3 +688,38 @@ M("C05", "symbol-list-reply-guard-inverted", LX, '                if not respons
 M("C14", "plc-name-reply-guard-inverted", LX, "            if not response:\n                raise ResponseError(f\"response did not return valid data - {response.error}\")\n\n            self._info[\"name\"]", "            if response:\n                raise ResponseError(f\"response did not return valid data - {response.error}\")\n\n            self._info[\"name\"]", ["D14.R"])
 M("C05", "makeup-attributes-guard-inverted", LX, '    if not response:\n        structure["error"] = response.error\n        return', '    if response:\n        structure["error"] = response.error\n        return', ["D5.R"])
 T("C05", "udt-cache-test-positive-form", LX, '        if instance_id not in self._cache["id:udt"]:', '        if not (instance_id in self._cache["id:udt"]):')
+# ------------------------------------------------------------------ driver orchestration witnesses
+M("C01", "read-bit-test-inverted", LX, "                        if bit is not None:\n                            result = Tag(", "                        if bit is None:\n                            result = Tag(", ["D1.14"])
+M("C01", "read-bool-slice-test-inverted", LX, "                        if bool_elements is not None:\n                            bools = result.value[bit : bit + bool_elements]", "                        if bool_elements is None:\n                            bools = result.value[bit : bit + bool_elements]", ["D1.14"])
+M("C01", "read-failed-reply-keeps-plc-name", LX, '                else:\n                    result = Tag(request_data["user_tag"], None, None, result.error)\n', "                else:\n                    pass\n", ["D1.14"])
+M("C03", "write-two-arg-form-not-wrapped", LX, "            tags_values = ((*tags_values,),)\n", "            pass\n", ["D3.11"])
+M("C03", "write-two-arg-test-or", LX, "        if len(tags_values) == 2 and isinstance(tags_values[0], str):", "        if len(tags_values) == 2 or isinstance(tags_values[0], str):", ["D3.11"])
+M("C02", "multi-bit-test-inverted", LX, '                if bit is not None and tag_data["bool_elements"] is None:\n                    try:', '                if bit is not None and tag_data["bool_elements"] is not None:\n                    try:', ["D2.12"])
+M("C03", "rmw-ids-collide", LX, "                                -1 * (1 + len(bit_writes)),", "                                -1 // (1 + len(bit_writes)),", ["D3.12"])
+M("C03", "rmw-first-id-zero", LX, "                                -1 * (1 + len(bit_writes)),", "                                -1 * (0 + len(bit_writes)),", ["D3.12"])
+M("C02", "single-bit-not-set", LX, '                request.set_bit(bit, parsed_tag["value"], parsed_tag["request_id"])\n            else:', "                pass\n            else:", ["D2.12"])
+M("C04", "single-write-size-difference", LX, 'req_size = len(parsed_tag["write_value"]) + len(request.message)', 'req_size = len(parsed_tag["write_value"]) - len(request.message)', ["D4.11"])
+M("C03", "write-dispatch-always-single", LX, "    def _write_build_requests(self, parsed_tags):\n        if len(parsed_tags) != 1 and not self._micro800:", "    def _write_build_requests(self, parsed_tags):\n        if len(parsed_tags) != 1 and self._micro800:", ["D3.12"])
+M("C01", "read-dispatch-micro800-multi", LX, "    def _read_build_requests(self, parsed_tags):\n        if len(parsed_tags) != 1 and not self._micro800:", "    def _read_build_requests(self, parsed_tags):\n        if len(parsed_tags) != 1 or not self._micro800:", ["D1.15"])
+M("C01", "send-requests-read-write-swapped", LX, '                            response.value if request.type_ == "read" else request.value,', '                            response.value if request.type_ != "read" else request.value,', ["D1.16"])
+M("C13", "multi-member-error-and", LX, "                                req.tag, None, None, req.error or resp.error", "                                req.tag, None, None, req.error and resp.error", ["D13.10"])
+M("C04", "fragment-read-unbuildable-sent", LX, "    ) -> ReadTagFragmentedResponsePacket:\n        if not request.error:", "    ) -> ReadTagFragmentedResponsePacket:\n        if request.error:", ["D4.10"])
+M("C04", "fragment-read-not-parsed", LX, "                final_response.parse_value()\n", "", ["D4.10"])
+M("C03", "fragment-write-replies-not-kept", LX, "                responses.append(_response)\n", "", ["D3.14"])
+M("C05", "tag-list-registers-not-reset", LX, '            self._info["programs"] = {}\n', "", ["D5.15"])
+M("C05", "tag-list-program-tags-dropped", LX, "                tags += self._get_tag_list(prog)\n", "                pass\n", ["D5.15"])
+M("C05", "tag-list-cache-test-inverted", LX, "        if cache:\n            self._tags = {", "        if not cache:\n            self._tags = {", ["D5.15"])
+M("C05", "symbol-list-program-prefix-missing", LX, '                        program = f"Program:{program}"\n', "                        pass\n", ["D5.16"])
+M("C05", "symbol-list-loop-test-le", LX, "            while stream.tell() < tags_returned_length:", "            while stream.tell() <= tags_returned_length:", ["D5.16"])
+M("C01", "tag-info-member-test-inverted", LX, "                if curr_tag in data:\n                    return _recurse_attrs(", "                if curr_tag not in data:\n                    return _recurse_attrs(", ["D1.17"])
+M("C01", "parsed-request-not-merged", LX, "                    parsed.update(parsed_request)\n", "                    pass\n", ["D1.17"])
+M("C14", "set-time-attribute-7", LX, "                [1, 6, microseconds]", "                [1, 7, microseconds]", ["D14.9"])
+M("C14", "plc-name-not-kept", LX, '            self._info["name"] = response.value\n            return self._info["name"]', '            return response.value', ["D14.9"])
+M("C16", "plc-info-guard-inverted", LX, '            if not response:\n                raise ResponseError(f"get_plc_info did not return valid data - {response.error}")', '            if response:\n                raise ResponseError(f"get_plc_info did not return valid data - {response.error}")', ["D16.8", "D16.R"])
+T("C01", "read-bit-mask-parenthesised", LX, "                                bool(result.value & 1 << bit),", "                                bool((result.value >> bit) & 1),")
+T("C03", "write-normalise-via-list", LX, "            tags_values = ((*tags_values,),)\n", "            tags_values = [tuple(tags_values)]\n")
+T("C02", "rmw-id-negated-sum", LX, "                                -1 * (1 + len(bit_writes)),", "                                -(len(bit_writes) + 1),")
+T("C05", "tag-list-else-first", LX, '        if program == "*":\n            tags = self._get_tag_list()\n            for prog in self._info["programs"]:\n                tags += self._get_tag_list(prog)\n        else:\n            tags = self._get_tag_list(program)\n',
+  '        if program != "*":\n            tags = self._get_tag_list(program)\n        else:\n            tags = self._get_tag_list()\n            for prog in self._info["programs"]:\n                tags += self._get_tag_list(prog)\n')
+T("C01", "send-requests-value-precomputed", LX, '                    if response:\n                        results[request.request_id] = Tag(\n                            request.tag,\n                            response.value if request.type_ == "read" else request.value,',
+  '                    if response:\n                        _is_read = request.type_ == "read"\n                        results[request.request_id] = Tag(\n                            request.tag,\n                            response.value if _is_read else request.value,')
